@@ -254,12 +254,13 @@ class OperatorRun:
                 if len(res) != 1:
                     raise Unsupported('Probe case forks')
                 pprobe = res[0][0]
+                self.probe_changed = {cid for cid, v in pprobe.cells.items() if pb.cells.get(cid, None) is not v}
                 states = list(pprobe.ghost.get('states', []))
                 ctx.states = states
                 for name, goal in c.ensures_probe(ctx, pprobe):
                     self.add_ob(eng, f'{bwhere}/Probe/ensures.{name}', pprobe.pc, goal, pprobe)
             else:
-                pprobe = pp; states = []
+                pprobe = pp; states = []; self.probe_changed = set()
             self.report.obligations.extend(eng.obligations); eng.obligations = []
             self.pending_lemma_obs = []
             # --- the event cases
@@ -335,6 +336,10 @@ class OperatorRun:
         ctx.trace0 = q.trace; ctx.store_host = store; ctx.states = states; ctx.observer = observer; ctx.outer = outer
         ctx.m0, ctx.v0 = self.fresh_prestate(q, states)
         ctx.maps0 = {k[1]: v for k, v in q.store.extra.items() if isinstance(k, tuple) and k[0] == 'map'}
+        # state kept OUTSIDE the store: nonlocal variables the handler assigns (other than the state ids assigned by the Probe case)
+        # persist from one call to the next, so their value at the start of a call is arbitrary unless the contract constrains it
+        # (`closure_state_ok`).  Anything refuted under such a havoc is only a candidate (needs an end-to-end confirmation).
+        ctx.closure_havoc = self.havoc_closure_state(q, on_next, getattr(self, 'probe_changed', set()), c)
         if hasattr(c, 'prestate'):
             c.prestate(ctx, q)
         ctx.k = Const('k', Key); ctx.x = Const('x', Val); ctx.err = Const('err', Val)
@@ -392,8 +397,33 @@ class OperatorRun:
             ob.hyps = list(eng.base_hyps) + ob.hyps
             self.pending_lemma_obs.append(ob)
         self.report.obligations.extend(eng.obligations)
+        if ctx.closure_havoc:
+            for ob in self.pending_lemma_obs:
+                ob.extra['candidate_only'] = f'state outside the store ({", ".join(ctx.closure_havoc)}) was given an arbitrary value'
+            self.report.notes.append(f'{bwhere}/{case}: closure variables {ctx.closure_havoc} persist across calls and were havocked')
         self.attach_lemmas(ctx)
         self.ctxs = getattr(self, 'ctxs', {}); self.ctxs[f'{bwhere}/{case}'] = ctx
+
+    def havoc_closure_state(self, q, on_next, probe_changed, c):
+        import ast as _ast
+        if not isinstance(on_next, Closure) or isinstance(on_next.node, _ast.Lambda):
+            return []
+        allowed = set(getattr(c, 'closure_state_ok', ()))
+        names = set()
+        for n in _ast.walk(on_next.node):
+            if isinstance(n, _ast.Nonlocal):
+                names.update(n.names)
+        assigned = {n.id for n in _ast.walk(on_next.node) if isinstance(n, _ast.Name) and isinstance(n.ctx, _ast.Store)}
+        out = []
+        for nm in sorted(names & assigned):
+            cid = on_next.scope.lookup(nm)
+            if cid is None or cid in probe_changed or nm in allowed:
+                continue
+            from .loops import havoc_value
+            old = q.cells.get(cid)
+            q.cells[cid] = SVal(fresh(f'closure_{nm}', Val)) if (old is None or not isinstance(old, SV)) else havoc_value(old, f'closure_{nm}')
+            out.append(nm)
+        return out
 
     def attach_lemmas(self, ctx):
         c = self.contract
